@@ -26,7 +26,7 @@ def partitions(tier, seed):
     region_types = [k for k in sp.struct_keys() if T[k]["kind"] == "tpm2b" or any(
         isinstance(f[1], str) and T[f[1]]["kind"] == "tpm2b" for f in T[k].get("fields", []))]
     if quick:
-        region_types = sp.rotate(region_types, seed, 28)
+        region_types = sp.rotate(region_types, seed, 24)
     for k in region_types:
         m = sp.min_size(k)
         lo, hi = (m, min(m + 3, 9)) if quick else (0, min(m + 4, 14))
